@@ -149,7 +149,7 @@ def run(tier='quick', repo=None):
              'whose address derives from the pipe parameter or a global (stores through va_arg out-pointers and to locals are allowed; so is the balanced use/release '
              'bracket that upipe_control() itself puts around a command sent to another pipe)')
     rep.rule('R-getset-agree', 'for each pair K_GET_X / K_SET_X handled by one control root: every private field copied out directly '
-             'by the getter is stored somewhere in the setter slice, and the function implementing the setter stores it on every path that does not return a constant error')
+             'by the getter is stored somewhere in the setter slice, and the function implementing the setter stores it on every path that does not return a constant error (the path on which the field already equals the value excepted); when what it stores is one of its parameters, that parameter is not rewritten (clamped, rounded) anywhere in the function')
     rep.rule('R-set-atomic', 'in a *_SET_* slice whose command has a paired getter, no return of an error constant other than '
              'UBASE_ERR_ALLOC is dominated (from the case label / callee entry) by a statement that stores into the pipe; and in a setter made of several steps, '
              'a field definitely stored before a local call that can fail is stored again before that failure is returned')
@@ -486,6 +486,26 @@ def check_agree_paths(rep, E, prog, setter_slices, direct, inst, root):
                 if not ev.find(stores):
                     continue         # not the function that implements this pair
                 ev.fn = equal_pruned(g, rec, field)
+                # the value stored is the value given: a parameter copied into the field is not rewritten on the way
+                for bid_, st_, x_ in g.nodes():
+                    if not is_assign(x_) or x_.get('op') != '=':
+                        continue
+                    l_ = strip(x_['lhs'])
+                    if not (isinstance(l_, dict) and l_.get('k') == 'mem' and l_.get('rec') == rec and l_.get('f') == field):
+                        continue
+                    r_ = strip_all_casts(g.resolve(x_['rhs']))
+                    if not (isinstance(r_, dict) and r_.get('k') == 'ref' and r_.get('d') == 'param'):
+                        continue
+                    rewrites = [y for _, _, y in g.nodes() if is_assign(y) and isinstance(strip(y['lhs']), dict) and strip(y['lhs']).get('k') == 'ref'
+                                and strip(y['lhs']).get('d') == 'param' and strip(y['lhs']).get('n') == r_.get('n')]
+                    nm_ = '%s:stores-the-value-given:%s.%s' % (inst, rec, field)
+                    if rewrites:
+                        rep.add('R-getset-agree', nm_, VIOLATED, '%s:%s' % (g.file, rewrites[0].get('l')),
+                                what='%s rewrites its parameter %s (line %s) before copying it into %s.%s and still accepts the call: the getter then reports a value '
+                                     'other than the one that was set' % (g.name, r_.get('n'), rewrites[0].get('l'), rec, field))
+                    else:
+                        rep.add('R-getset-agree', nm_, HOLDS, g.loc)
+                    break
 
                 def accepting(n, g=g):
                     # `return UBASE_ERR_NONE` or a tail call (delegation); a returned variable is the propagated failure of UBASE_RETURN
@@ -649,6 +669,9 @@ NOT_ATOMIC_BY_CONTRACT = {
 }
 
 
+_steps_done = set()
+
+
 def check_composite(rep, E, fn, cmd, rname, seen):
     """a setter made of several fallible steps: if a later step can fail after an
     earlier one stored, the stored fields must be written again before the error is
@@ -701,6 +724,15 @@ def check_composite(rep, E, fn, cmd, rname, seen):
             g = E.prog.lookup(fn.unit, gcall['fn'])
             if g is None or not g.blocks or g.unit is not fn.unit or not can_fail(E, g):
                 continue
+            if (g.name, cmd) not in _steps_done:
+                # a step of the setter whose refusal the setter hands back: its own refusals come before it touches the pipe
+                _steps_done.add((g.name, cmd))
+
+                class _S:
+                    pass
+                ps = _S()
+                ps.fn, ps.blocks, ps.case_block = g, set(g.blocks), g.entry
+                check_set_atomic(rep, E, ps, cmd, rname)
             isg = (lambda c: (lambda n: n is c))(gcall)
             isret = (lambda r: (lambda n: n is r))(st)
             gpos = ev.find(isg)
